@@ -132,6 +132,9 @@ M=[
                         ));
                         break;
                     }""",["C12"]),
+ ("M40-tx-index-key-one-byte","src/db/brc20_prog_database.rs","        ((block_number as u128) << 64) | tx_idx as u128","        ((block_number as u128) << 64) | (tx_idx as u8) as u128",["C06","C01","C02"]),
+ ("M41-log-index-one-byte","src/engine/engine.rs","                self.last_block_info.read().log_index,\n                inscription_id,","                self.last_block_info.read().log_index & 0xff,\n                inscription_id,",["C06","C18"]),
+ ("M42-block-key-two-bytes","src/db/brc20_prog_database.rs","        ((block_number as u128) << 64) | tx_idx as u128","        (((block_number as u16) as u128) << 64) | tx_idx as u128",["C01","C03"]),
 ]
 def sh(cmd, **kw):
     return subprocess.run(cmd, shell=True, capture_output=True, text=True, **kw)
